@@ -67,8 +67,19 @@ def initial_state(ex: Exec, fi: front.FuncInfo, c: Contract) -> State:
         st.locals[name] = ex.typed(st, z, th)
     if a.vararg or a.kwarg:
         raise Unsupported("*args/**kwargs in verified function", fi.node)
-    for g, t in c.ghost.items():
-        st.ghost[g] = ex.typed(st, z3.Const("ghost_" + g, V), parse_hint(t))
+    for gi, (g, t) in enumerate(c.ghost.items()):
+        th = parse_hint(t)
+        if hint_kind(th) in ("list", "dict", "set"):
+            # ghost containers live at negative references: disjoint from every program object
+            gz = V.R(z3.IntVal(-(gi + 1)))
+            v = Val(gz, th=th)
+            if hint_kind(th) == "list":
+                st.assume(st.hread("$llen", V.r(gz)) >= 0)
+            else:
+                st.assume(st.hread("$dlen", V.r(gz)) >= 0)
+            st.ghost[g] = v
+        else:
+            st.ghost[g] = ex.typed(st, z3.Const("ghost_" + g, V), th)
     return st
 
 
@@ -86,6 +97,7 @@ def verify_function(c: Contract, registry: Dict[str, Contract]) -> FunctionResul
     ex = Exec(registry)
     res.ex = ex
     ex.cur_key = c.key
+    ex.root_contract = c
     try:
         st = initial_state(ex, fi, c)
         env = dict(st.locals)
@@ -110,7 +122,11 @@ def verify_function(c: Contract, registry: Dict[str, Contract]) -> FunctionResul
                     g = ex.spec_bool(s, e, env2, fi, old=entry)
                     ex.oblige(f"post[{i}]#p{pi}", s, g, fi.lineno, "post", e)
                 for m in frame_fields(c, fi, s):
-                    ex.oblige(f"frame[{m}]#p{pi}", s, s.harr(m) == entry.harr(m), fi.lineno, "frame", m)
+                    rq = fresh("rq", z3.IntSort())
+                    pre_existing = z3.ForAll([rq], z3.Implies(z3.And(rq >= 0, rq < s.alloc0),
+                                                              z3.Select(s.harr(m), rq) == z3.Select(entry.harr(m), rq)))
+                    ex.oblige(f"frame[{m}]#p{pi}", s, pre_existing, fi.lineno, "frame",
+                              f"field {m} of every object that existed at entry is unchanged")
             elif o.kind == "raise":
                 e: ExcVal = o.val.py[1]
                 env2 = dict(entry.locals)
@@ -120,7 +136,8 @@ def verify_function(c: Contract, registry: Dict[str, Contract]) -> FunctionResul
                     for rz in c.raises:
                         cond = exc_is_sub(e.cls_expr(), rz.exc)
                         if rz.when is not None:
-                            cond = z3.And(cond, ex.spec_bool(s, rz.when, env2, fi, old=entry))
+                            # `when` speaks about the state in which the function was called
+                            cond = z3.And(cond, ex.spec_bool(s, f"old({rz.when})", env2, fi, old=entry))
                         allowed.append(cond)
                     g = z3.Or(allowed) if allowed else z3.BoolVal(False)
                     kind = "safe" if e.implicit else "raises"
@@ -164,8 +181,11 @@ def verify_function(c: Contract, registry: Dict[str, Contract]) -> FunctionResul
 
 def frame_fields(c: Contract, fi: front.FuncInfo, st: State) -> List[str]:
     """Heap fields that were touched on this path but are not in the modifies clause."""
-    if "*" in c.modifies or c.modifies == ["?"]:
-        return []
+    if "*" in c.modifies:
+        from .spec import PROTECTED_FIELDS
+
+        return [f for f in PROTECTED_FIELDS if f in st.heap and not (f in st.heap0 and st.heap[f] is st.heap0[f])
+                and f not in [front.mangle(m, fi.cls.name if fi.cls else None) for m in c.modifies]]
     cls = fi.cls.name if fi.cls is not None else None
     allowed = set()
     for m in c.modifies:
